@@ -190,7 +190,29 @@ def run_ops(ops_path, workdir, name="ops", observe="all"):
     return out
 
 
-JUDGE_CFG = "SPECIFICATION TraceSpec\nPOSTCONDITION Judged\nCHECK_DEADLOCK FALSE\n"
+JUDGE_CFG = "SPECIFICATION TraceSpec\nPOSTCONDITION Judged\nCHECK_DEADLOCK FALSE\nCONSTANT NameTable <- NameTableDef\n"
+WORD_RE = re.compile(rb"[A-Za-z0-9_#:]+")
+
+
+def write_name_table(trace_path, wd):
+    """Grammar.tla turns the byte spelling of a name into the TLA+ string used in trees through a table; the table for a
+    trace lists every word occurring in the expression texts of that trace (purely lexical, no interpretation)."""
+    words = set()
+    with open(trace_path, "rb") as f:
+        for line in f:
+            if b'"text"' not in line:
+                continue
+            try:
+                d = json.loads(line)
+            except Exception:
+                continue
+            t = d.get("text")
+            if isinstance(t, list):
+                words.update(w.decode() for w in WORD_RE.findall(bytes(t)))
+    rows = ",\n  ".join('<< <<%s>>, "%s" >>' % (",".join(str(b) for b in w.encode()), w) for w in sorted(words))
+    with open(os.path.join(wd, "Names.tla"), "w") as f:
+        f.write("---- MODULE Names ----\nNameTableDef == <<\n  %s\n>>\n====\n" % rows)
+
 
 
 def judge_one(trace_path, timeout=3600):
@@ -201,6 +223,7 @@ def judge_one(trace_path, timeout=3600):
     wd = trace_path + ".judge"
     os.makedirs(wd, exist_ok=True)
     stage_spec(wd)
+    write_name_table(trace_path, wd)
     os.symlink(trace_path, os.path.join(wd, "trace.ndjson"))
     with open(os.path.join(wd, "Trace.cfg"), "w") as f:
         f.write(JUDGE_CFG)
@@ -256,7 +279,8 @@ def save_replay(pid, bare_ops, info):
 
 
 def describe_lab(d):
-    return "%s %s  -> %s" % (d["op"], json.dumps({k: d[k] for k in ("ast", "item", "names", "values") if k in d}, sort_keys=True)[:600],
+    txt = bytes(d["text"]).decode("latin1") if isinstance(d.get("text"), list) else ""
+    return "%s %r %s  -> %s" % (d["op"], txt, json.dumps({k: d[k] for k in ("item", "names", "values") if k in d}, sort_keys=True)[:500],
                               {k: v["o"] for k, v in d.get("r", {}).items()})
 
 
@@ -278,7 +302,7 @@ def describe_op(o):
         if not isinstance(it, dict):
             return "{}"
         return "{" + ",".join("%s:%s" % (k, val(v)) for k, v in sorted(it.items())) + "}"
-    if o.get("op") in ("Match", "Apply"):
+    if o.get("op") in ("Match", "Apply", "MatchText", "ApplyText"):
         return describe_lab(o)
     s = o.get("op", "?")
     for k in ("c", "t"):
